@@ -14,15 +14,15 @@ import (
 // ---- C19: a limited user's throughput never exceeds the configured rates ----
 
 type C19Scenario struct {
-	RxRate   int64        `json:"rx_rate"` // client -> server, bytes/s
-	TxRate   int64        `json:"tx_rate"` // server -> client, bytes/s
-	Sessions []SessParams `json:"sessions"`
-	Streams  []int        `json:"streams"` // streams per session
-	UpBytes  int          `json:"up_bytes"`   // total client -> server, split over all streams
-	DownBytes int         `json:"down_bytes"` // total server -> client
-	WriteSize int         `json:"write_size"`
-	PatKey   uint64       `json:"pat_key"`
-	ZeroLatency bool      `json:"zero_latency"`
+	RxRate      int64        `json:"rx_rate"` // client -> server, bytes/s
+	TxRate      int64        `json:"tx_rate"` // server -> client, bytes/s
+	Sessions    []SessParams `json:"sessions"`
+	Streams     []int        `json:"streams"`    // streams per session
+	UpBytes     int          `json:"up_bytes"`   // total client -> server, split over all streams
+	DownBytes   int          `json:"down_bytes"` // total server -> client
+	WriteSize   int          `json:"write_size"`
+	PatKey      uint64       `json:"pat_key"`
+	ZeroLatency bool         `json:"zero_latency"`
 	// CloseAtMS > 0: at that virtual time the first session is closed by
 	// CloseSide (0 client, 1 server) while its senders are backlogged; whatever
 	// still reaches the wire afterwards stays inside the envelope
